@@ -17,38 +17,33 @@ Proof.
   apply nnth_some_lt in E. lia.
 Qed.
 
-Lemma WFV_buflen v n b : WFV v -> buflen_ok v n b -> WFV (v_buflen v n b).
+Lemma WFV_loaded v off o : WFV v -> tryload_ok v off o -> WFV (v_loaded v off o).
 Proof.
-  unfold WFV, v_buflen, buflen_ok; cbn [vhwm vS]. intros H [_ H2]. destruct b; [|exact H].
-  specialize (H2 eq_refl). lia.
+  unfold WFV, v_loaded, tryload_ok; cbn [vhwm vS]. intros H Hok. destruct o as [w|]; [|exact H].
+  destruct Hok as [Hlen _]. lia.
+Qed.
+
+Lemma s_tryload_ok v off : WFV v -> tryload_ok v off (s_tryload v off).
+Proof.
+  unfold WFV, tryload_ok, s_tryload. intros H. destruct (vcur v + off + 8 <=? vhwm v) eqn:E.
+  - apply N.leb_le in E. split; [lia|reflexivity].
+  - apply N.leb_gt in E. exact E.
 Qed.
 
 (* the simple run is one of the admissible runs *)
 Lemma srun_aruns {A} (p : prog A) : forall v, WFV v -> aruns p v (srun p v).
 Proof.
-  induction p as [a|k c IH|n c IH|n c IH|off c IH|c IH|c IH|c IH|c IH|c IH|c IH|k|]; intros v Hv; cbn [srun].
+  induction p as [a|k c IH|n c IH|off c IH|c IH|c IH|c IH|c IH|c IH|c IH|k|]; intros v Hv; cbn [srun].
   - constructor.
   - constructor. apply IH. apply WFV_after_peek; exact Hv.
   - destruct (vcur v + n <=? vhwm v) eqn:E.
     + apply N.leb_le in E. apply ar_adv; [exact E|]. apply IH. exact Hv.
     + apply N.leb_gt in E. apply ar_adv_stuck. exact E.
-  - assert (Hok : buflen_ok v n (s_buflen v n)).
-    { unfold buflen_ok, s_buflen. split.
-      - intros H. apply N.leb_le. exact H.
-      - intros H. apply N.leb_le in H. unfold WFV in Hv. lia. }
-    eapply ar_buflen; [exact Hok|]. apply IH. apply WFV_buflen; assumption.
-  - destruct (vcur v + off + 8 <=? vhwm v) eqn:E.
-    + apply N.leb_le in E. apply ar_load; [exact E|]. apply IH. exact Hv.
-    + apply N.leb_gt in E. apply ar_load_stuck. exact E.
-  - eapply ar_atend; [|apply IH; exact Hv]. unfold atend_ok, s_atend. split.
-    + intros H. apply andb_false_iff. right. apply N.leb_gt. exact H.
-    + intros H1 H2. rewrite H1. apply N.leb_le in H2. rewrite H2. reflexivity.
-  - eapply ar_parked; [|apply IH; exact Hv]. unfold parked_ok, s_parked. split.
-    + intros H. apply andb_prop in H. destruct H as [_ H]. destruct (v_err_now v); [discriminate|discriminate].
-    + intros H1 H2. rewrite H1. destruct (v_err_now v); [reflexivity|congruence].
-  - eapply ar_take; [|apply IH; exact Hv]. unfold take_ok, s_take. split.
-    + intros e H. destruct (vknown v); [exact H|discriminate].
-    + intros H. rewrite H. reflexivity.
+  - pose proof (s_tryload_ok v off Hv) as Hok.
+    eapply ar_tryload; [exact Hok|]. apply IH. apply WFV_loaded; assumption.
+  - constructor. apply IH. exact Hv.
+  - constructor. apply IH. exact Hv.
+  - constructor. apply IH. exact Hv.
   - constructor. apply IH. exact Hv.
   - constructor. apply IH. exact Hv.
   - constructor. apply IH. exact Hv.
@@ -63,7 +58,9 @@ Fixpoint det {A} (p : prog A) : Prop :=
   | Peek _ c => forall o, det (c o)
   | Advance _ c | SetMark c => det c
   | GetMark c | GetPos c => forall m, det (c m)
-  | _ => False
+  | IsAtEnd c | ErrParked c => forall b, det (c b)
+  | TakeErr c => forall o, det (c o)
+  | TryLoad8 _ _ => False
   end.
 
 Lemma det_aruns {A} (p : prog A) v r : aruns p v r -> det p -> r = srun p v.
